@@ -464,3 +464,61 @@ META["C20"] = {
                "thorough": {"points_checked": 2000000, "compiled": 80, "compiled_points_checked": 5000, "distinct_nontrivial": 600}},
     "soft_s": {"quick": 240, "thorough": 2400},
 }
+
+
+def post_C03(agg, info):
+    import glob, json
+    import stats
+    fam = stats.Family()
+    n_rec = 0
+    for f in sorted(glob.glob(os.path.join(info["tmpdir"], "aux", "c03_sampled_*.json"))):
+        for rec in json.load(open(f)):
+            n_rec += 1
+            for t in rec["tests"]:
+                p, st = stats.chi2_two_sample(t["a"], t["b"])
+                fam.add(f"{rec['template']}|{rec['config']}|observer {rec['observer']}|scalar {t['i']}", p, st, rec)
+    bad, cov = fam.decide()
+    viol = []
+    seen = set()
+    for name, p, st, rec in bad:
+        sig = "C03|view_depends_on_other_inputs|sampled|" + rec["template"]
+        if sig in seen:
+            continue
+        seen.add(sig)
+        v = _viol(sig, f"party {rec['observer']}'s view scalar distribution differs between two assignments of the other parties' "
+                       f"inputs: {name} p={p:.3g} chi2={st:.1f}", info, {"config": rec["config"], "template": rec["template"]})
+        v["case"] = rec["case"]
+        viol.append(v)
+    cov["sampled_records"] = n_rec
+    cov["sampled_mode_reach"] = ("marginals of every view scalar plus pairwise and three-way sums of received-message scalars; "
+                                 "says nothing about leaks of higher order")
+    problems = []
+    if n_rec == 0:
+        problems.append("sampled mode produced no records")
+    return viol, cov, problems
+
+
+META["C03"] = {
+    "level": "exploration",
+    "rule": "exact mode: random bit circuits (2-3 one-bit inputs, 1-4 gates from AND / XOR / NOT) x owner vectors over {0,1,2,public} x all 13 "
+            "output lists, compiled and executed by three parties with the PRF idealised as a tape; every tape (<= 12 / 16 bits) is "
+            "enumerated for every input assignment and, per observer, the view histograms of assignments in the same (own inputs, own "
+            "output) class must be identical, repeated for 2 / 4 conditioning seeds of single-party junk randomness; sampled mode: 9 "
+            "u8 / i8 templates (multiply, multiply-add, product chain, mixed multiply / OT, A2B, A2B+B2A, dot, truncation by 4, "
+            "sum-then-multiply) x owner rotations x output in {one party, secret-shared} x inline modes, 3000 / 30000 sampled executions "
+            "per assignment with the real PRF and fresh party seeds; a case is one (circuit or template, configuration); non-trivial = "
+            "at least one pair of assignments compared; distinct by hash of (graph, configuration)",
+    "assumptions": COMMON_ASSUMPTIONS + [M2_ASSUMPTION,
+        "a party's view = the vector of all values it computes (own inputs, own draws, PRF answers, received messages, output)",
+        "exact mode: PRF answers are independent uniform bits per distinct (key identity, counter); key-typed Random nodes return a "
+        "symbolic identity (node, party); tape variables evaluated by exactly one party while the same node has a variable shared by "
+        "two parties are that party's junk randomness and are fixed by a conditioning seed",
+        "sampled mode: two-sample chi-square at family-wise alpha 1e-9 on marginals, pairwise and three-way sums of message scalars",
+    ],
+    "floors": {"quick": {"executions": 200000, "assignment_pairs_compared": 300, "tapes_enumerated": 200000, "sampled_templates": 15,
+                         "sampled_executions": 80000, "distinct_nontrivial": 150},
+               "thorough": {"executions": 20000000, "assignment_pairs_compared": 8000, "tapes_enumerated": 20000000, "sampled_templates": 80,
+                            "sampled_executions": 4000000, "distinct_nontrivial": 3000}},
+    "soft_s": {"quick": 240, "thorough": 2400},
+}
+PY_SERVES.append("C03")
